@@ -35,3 +35,30 @@ def buffer_filled_whole(x, rounds):
         buf[:] = x * k
         total += buf.sum()
     return total
+
+
+def masked_fill_read_whole(x, block=4):
+    # the scratch vector receives values only where the mask holds and is then used whole: stale outside the mask
+    acc = np.zeros((block,))
+    out = np.empty((len(x),))
+    for lo in range(0, len(x), block):
+        k = min(block, len(x) - lo)
+        part = acc[:k]
+        big = x[lo:lo + k] > 1.0
+        part[big] = np.log(x[lo:lo + k][big])
+        out[lo:lo + k] = part + 1.0
+    return out
+
+
+def masked_fill_after_reset(x, block=4):
+    # clean twin: the region is reset at the start of every round
+    acc = np.zeros((block,))
+    out = np.empty((len(x),))
+    for lo in range(0, len(x), block):
+        k = min(block, len(x) - lo)
+        acc[:k] = 0.0
+        part = acc[:k]
+        big = x[lo:lo + k] > 1.0
+        part[big] = np.log(x[lo:lo + k][big])
+        out[lo:lo + k] = part + 1.0
+    return out
